@@ -1,5 +1,5 @@
 """C20 — recursion and aggregation: three-way Fiat–Shamir schedule duality and structural must-calls."""
-from ..core import expr_str, pat_bindings, norm, short, AnchorMissing, walk, callee, peel
+from ..core import expr_str, pat_bindings, walk, callee, norm, short, AnchorMissing, walk, callee, peel
 from ..engines import sched, schednorm, hirq, mustcall as mc, reach
 from .. import tables
 from . import c01
@@ -104,6 +104,7 @@ def run(ck):
     r5_mustcalls(ck, w)
     r7_lagrange(ck, w)
     r8_instance_split(ck, w)
+    r9_instance_count(ck, w)
     from ..engines import fsbind
     ck.rule('C20.R6', 'Fiat–Shamir statement binding: in ipa_prove / ipa_verify and the in-circuit parse_trace every statement input (bases, claimed values, key, '
                       'instances) is absorbed before the first challenge is squeezed from the same transcript')
@@ -235,3 +236,39 @@ def r8_instance_split(ck, w):
     ck.record('C20.R8', 'LightAggregator::verify:per-proof-instance-count', ok, 'an escaping conditional checks the length of every inner instance list',
               'LightAggregator::verify flattens `instances` without checking the length of each inner list: a re-split of the same values between the inner proofs '
               'is accepted', hirq.fn_loc(f))
+
+
+def r9_instance_count(ck, w):
+    """the instance vector of the aggregator proof, whose length depends on counts read from the proof, is compared exactly with the keygen count"""
+    from ..engines import taint
+    from ..core import peel
+    ck.rule('C20.R9', 'LightAggregator::verify builds the instance vector of the aggregator circuit from data READ FROM THE UNTRUSTED PROOF (the numbers of '
+                      'accumulator bases); the PLONK verifier accepts instance vectors longer than what the circuit binds (further rows are unconstrained), so an '
+                      'escaping conditional must compare the length of that vector EXACTLY (`!=`) with a count fixed at key generation before it is handed to '
+                      'prepare().  Without it a prover announces one extra base X, shifts the fixed bases of the inner-product argument by one slot and solves '
+                      'for X: an aggregated proof verifies for inner public inputs it holds no valid proof of.')
+    fs = [f for f in w.all_fns(['aggregator']) if f['name'] == 'verify' and 'LightAggregator' in f['_nid']]
+    if not fs:
+        ck.bad('C20.R9', 'LightAggregator::verify:anchor', 'LightAggregator::verify not found (anchor)')
+        return
+    f = fs[0]
+    # the local handed to prepare as instances
+    prep = [n for n in hirq.calls(f['body']) if (callee(n) or '').endswith('plonk::verifier::prepare') or (callee(n) or '').endswith('::prepare')]
+    inst_locals = set()
+    for n in prep:
+        for a in n.get('args', [])[2:3]:
+            inst_locals |= {x['i'] for x in walk(a) if x.get('k') == 'local'}
+    ok = False
+    for n in walk(f['body']):
+        if n.get('k') != 'if' or not taint.diverges(n['a']):
+            continue
+        c = peel(n['c'])
+        if c.get('k') == 'bin' and c.get('op') == '!=':
+            sides = [peel(c['a']), peel(c['b'])]
+            has_len = any(s_.get('k') == 'mcall' and s_.get('m') == 'len' and any(x.get('k') == 'local' and x['i'] in inst_locals for x in walk(s_['recv'])) for s_ in sides)
+            has_field = any(s_.get('k') == 'field' for s_ in sides)
+            if has_len and has_field:
+                ok = True
+    ck.record('C20.R9', 'LightAggregator::verify:exact-instance-count', bool(prep) and ok, 'the instance vector length is compared with the keygen count (!=, escaping)',
+              'LightAggregator::verify hands prepare() an instance vector whose length is derived from counts read from the proof and never compares it with the '
+              'number of public inputs the aggregator circuit binds: a forged aggregated proof with one extra accumulator base verifies', hirq.fn_loc(f))
